@@ -5,7 +5,7 @@
 (* FALSE on the event; EventDrift(ev, pre) the L2 (implementation-shaped)   *)
 (* disagreements.                                                           *)
 (***************************************************************************)
-EXTENDS LinalgAbs
+EXTENDS LocalOps
 
 Has(r, f) == f \in DOMAIN r
 Labels(x) == IF IsFermi(x) THEN x.oddpos ELSE <<>>
@@ -620,8 +620,6 @@ TableDrift(ev) ==
 ---------------------------------------------------------------------------
 \* C16: constructors.  from_dense groups the positions of every axis by their label,
 \* keeping their relative order (a stable sort by charge), and keeps the conserving sectors
-RankInLabel(lab, i) == Cardinality({j \in 1..(i - 1) : lab[j] = lab[i]})
-CountLabel(lab, c) == Cardinality({j \in 1..Len(lab) : lab[j] = c})
 FromDenseElems(d, labels, sym, duals, charge) ==
   { [k |-> [a \in 1..Len(e.k) |-> <<labels[a][e.k[a] + 1], RankInLabel(labels[a], e.k[a] + 1)>>], v |-> e.v] :
       e \in {f \in DenseNZ(d) :
@@ -816,9 +814,122 @@ LinalgFails(ev, pre) ==
     [] ev.op = "solve" -> SolveEv(ev, pre)
     [] ev.op = "svd_truncated" -> TruncEv(ev, pre)
 
+
+---------------------------------------------------------------------------
+\* C18 / C19: local operators and edge Hamiltonians (events of the special drivers)
+CoordKey(labels, nsites, st) == [j \in 1..Len(st) |-> StateCoord(labels[((j - 1) % nsites) + 1], st[j] + 1)]
+LocalElementsEv(ev) ==
+  LET t == ev.regs.tab
+      got == NZ({[k |-> t.entries[i].k, v |-> t.entries[i].v] : i \in 1..Len(t.entries)})
+  IN IF ev.outcome = "raise" THEN {"C18.elements.raises"}
+     ELSE F(got = Elements(t.terms, t.bases), "C18.elements")
+          \cup F(\A i, j \in 1..Len(t.entries) : i # j => t.entries[i].k # t.entries[j].k, "C18.elements.unique")
+\* the operator array: legs (out_1..out_n, in_1..in_n), duals FALSE.. TRUE..
+ExpectedOperatorElems(a) ==
+  LET n == Len(a.bases)
+      duals == [j \in 1..(2 * n) |-> j > n]
+  IN {e \in {[k |-> CoordKey(a.labels, n, f.k), v |-> f.v] : f \in Elements(a.terms, a.bases)} :
+        SignedCombine(a.sym, KeySector(e.k), duals) = Zero}
+LocalArrayEv(ev) ==
+  LET a == ev.args
+      g == Outs(ev, 1)
+      n == Len(a.bases)
+      p == IF ev.op = "ham_edge" THEN "C19.edge_array" ELSE "C18.array"
+  IN IF ev.outcome = "raise" THEN {p \o ".raises"}
+     ELSE F(IsArray(g) /\ Valid(g) /\ IsFermi(g), p \o ".valid")
+          \cup (IF IsArray(g) /\ Valid(g) /\ AllExact(g)
+                THEN F(Elem(g) = ExpectedOperatorElems(a), p \o ".value")
+                     \cup F(Duals(g) = [j \in 1..(2 * n) |-> j > n] /\ g.charge = Zero /\ g.sym = a.sym, p \o ".attributes")
+                ELSE {})
+\* phi = tensordot(G, psi) for the basis tensor psi = |in>
+OpApplyEv(ev, pre) ==
+  LET a == ev.args
+      phi == Ins(ev, pre, 1)
+      psi == Ins(ev, pre, 2)
+      n == Len(a.bases)
+      instate == [s \in 1..n |-> a.instate[s] + 1]
+      inkey == [s \in 1..n |-> StateCoord(a.labels[s], instate[s])]
+      en == IsArray(psi) /\ AllExact(psi) /\ Elem(psi) = {[k |-> inkey, v |-> VOne]}
+      want == {[k |-> [s \in 1..n |-> StateCoord(a.labels[s], e.k[s])], v |-> e.v] : e \in MapColumn(a.terms, a.bases, instate)}
+  IN IF ~en THEN {}
+     ELSE IF IsArray(phi) /\ AllExact(phi) THEN F(Elem(phi) = want, "C18.map_is_operator")
+     ELSE IF IsScalar(phi) THEN F(n = 0, "C18.map_is_operator.type")
+     ELSE {}
+
+\* ---- Hubbard models on a graph (C19) ----
+Degree(edges, site) == Cardinality({i \in 1..Len(edges) : edges[i][1] = site \/ edges[i][2] = site})
+\* modes of the two sites of an edge, ordered like the library's labels: ad < au < bd < bu ; a < b
+Cr(m) == [m |-> m, cr |-> TRUE]
+An(m) == [m |-> m, cr |-> FALSE]
+Term(c, ops) == [c |-> <<c, 0>>, ops |-> ops]
+\* all coefficients arrive multiplied out: on-site ones are already divided by the spec's own degree
+SpinfulTerms(t, Ua, Ub, mua, mub) ==
+  LET ad == 1  au == 2  bd == 3  bu == 4 IN
+  << Term(0 - t, <<Cr(au), An(bu)>>), Term(0 - t, <<Cr(bu), An(au)>>),
+     Term(0 - t, <<Cr(ad), An(bd)>>), Term(0 - t, <<Cr(bd), An(ad)>>),
+     Term(Ua, <<Cr(au), An(au), Cr(ad), An(ad)>>), Term(Ub, <<Cr(bu), An(bu), Cr(bd), An(bd)>>),
+     Term(0 - mua, <<Cr(au), An(au)>>), Term(0 - mua, <<Cr(ad), An(ad)>>),
+     Term(0 - mub, <<Cr(bu), An(bu)>>), Term(0 - mub, <<Cr(bd), An(bd)>>) >>
+SpinfulBases ==
+  << << <<>>, <<Cr(1)>>, <<Cr(2)>>, <<Cr(2), Cr(1)>> >>,
+     << <<>>, <<Cr(3)>>, <<Cr(4)>>, <<Cr(4), Cr(3)>> >> >>
+SpinlessTerms(t, V, mua, mub) ==
+  << Term(0 - t, <<Cr(1), An(2)>>), Term(0 - t, <<Cr(2), An(1)>>),
+     Term(V, <<Cr(1), An(1), Cr(2), An(2)>>),
+     Term(0 - mua, <<Cr(1), An(1)>>), Term(0 - mub, <<Cr(2), An(2)>>) >>
+SpinlessBases == << << <<>>, <<Cr(1)>> >>, << <<>>, <<Cr(2)>> >> >>
+\* charges of the local basis states: occupation (parity / number / (n_up, n_down))
+SpinfulLabels(sym) ==
+  CASE sym = "Z2" -> <<<<0, 0>>, <<1, 0>>, <<1, 0>>, <<0, 0>>>>
+    [] sym = "U1" -> <<<<0, 0>>, <<1, 0>>, <<1, 0>>, <<2, 0>>>>
+    [] sym \in {"Z2Z2", "U1U1"} -> <<<<0, 0>>, <<0, 1>>, <<1, 0>>, <<1, 1>>>>
+SpinlessLabels(sym) == <<<<0, 0>>, <<1, 0>>>>
+\* coefficients are integers divisible by the degrees (multiples of 60): exact division
+HamEdgeEv(ev) ==
+  LET a == ev.args
+      da == Degree(a.edges, a.edge[1])
+      db == Degree(a.edges, a.edge[2])
+      ok == da > 0 /\ db > 0 /\ a.Ua % da = 0 /\ a.Ub % db = 0 /\ a.mua % da = 0 /\ a.mub % db = 0
+      terms == IF a.model = "spinful"
+               THEN SpinfulTerms(a.t, a.Ua \div da, a.Ub \div db, a.mua \div da, a.mub \div db)
+               ELSE SpinlessTerms(a.t, a.V, a.mua \div da, a.mub \div db)
+      bases == IF a.model = "spinful" THEN SpinfulBases ELSE SpinlessBases
+      lab == IF a.model = "spinful" THEN SpinfulLabels(a.sym) ELSE SpinlessLabels(a.sym)
+      b == [terms |-> terms, bases |-> bases, labels |-> <<lab, lab>>, sym |-> a.sym]
+  IN IF ~ok THEN {}
+     ELSE LocalArrayEv([ev EXCEPT !.args = b])
+\* every edge exactly once, as given
+HamKeysEv(ev) ==
+  LET t == ev.regs.tab IN
+  IF ev.outcome = "raise" THEN {"C19.builder_raises"} ELSE
+  F(Len(t.keys) = Len(t.edges) /\ \A i \in 1..Len(t.edges) : t.keys[i] = t.edges[i], "C19.each_edge_once")
+SiteInfoEv(ev) ==
+  LET t == ev.regs.tab
+      S == 1..Len(t.sites)
+      bondname(i, k) == t.sites[i].inds[k]
+      nb(i) == Len(t.sites[i].inds) - (IF t.phys THEN 1 ELSE 0)
+      ends(name) == {ik \in {jk \in S \X (1..8) : jk[2] <= nb(jk[1])} : bondname(ik[1], ik[2]) = name}
+      allnames == {bondname(ik[1], ik[2]) : ik \in {jk \in S \X (1..8) : jk[2] <= nb(jk[1])}}
+  IN IF ev.outcome = "raise" THEN {"C19.site_info.raises"} ELSE
+     F(\A i \in S : t.sites[i].coordination = Degree(t.edges, t.sites[i].site) /\ nb(i) = Degree(t.edges, t.sites[i].site),
+       "C19.site_info.coordination")
+     \cup F(\A nm \in allnames : Cardinality(ends(nm)) = 2, "C19.site_info.bond_shared_by_two")
+     \cup F(\A nm \in allnames : \A e1, e2 \in ends(nm) : e1 # e2 =>
+               /\ e1[1] # e2[1]
+               /\ t.sites[e1[1]].duals[e1[2]] # t.sites[e2[1]].duals[e2[2]]
+               /\ \E i \in 1..Len(t.edges) : {t.edges[i][1], t.edges[i][2]} = {t.sites[e1[1]].site, t.sites[e2[1]].site},
+             "C19.site_info.opposite_directions")
+     \cup F(Cardinality(allnames) = Len(t.edges), "C19.site_info.one_name_per_bond")
+
 ---------------------------------------------------------------------------
 OpFails(ev, pre) ==
   IF ev.op \in {"group_pairs", "group_assoc", "sectors"} THEN TableFails(ev)
+  ELSE IF ev.op = "local_elements" THEN LocalElementsEv(ev)
+  ELSE IF ev.op = "local_array" THEN LocalArrayEv(ev)
+  ELSE IF ev.op = "ham_edge" THEN HamEdgeEv(ev)
+  ELSE IF ev.op = "ham_keys" THEN HamKeysEv(ev)
+  ELSE IF ev.op = "site_info" THEN SiteInfoEv(ev)
+  ELSE IF ev.op = "op_apply" THEN OpApplyEv(ev, pre)
   ELSE IF ev.op = "rel" THEN PseudoFails(ev, pre)
   ELSE IF ev.op = "init" \/ ev.in = <<>> THEN {}
   ELSE IF ev.op = "observe" THEN ObserveEv(ev)
